@@ -49,5 +49,19 @@ theorem recorder_resp_src : recorder_resp = "resp" := by decide
 theorem json_defaults_type_src : json_defaults_type = "q, \"type\", dns.TypeA, dns.StringToType" := by decide
 theorem json_defaults_class_src : json_defaults_class = "q, \"qc\", dns.ClassINET, dns.StringToClass" := by decide
 theorem json_bool_cases_src : json_bool_cases = "\"1\",\"true\",\"True\" | \"0\",\"false\",\"False\" | \"\" | default" := by decide
+/-- `ServerBase.dispose` disposes for exactly the two directly writing writers (`Agd.Serve.disposeKinds`). -/
+theorem dispose_cases_src : dispose_cases = "*tcpResponseWriter,*udpResponseWriter | default" := by decide
+/-- `serveDNSMsg`: handler, metrics, then the one disposal (`Agd.Serve.inServe`). -/
+theorem serve_msg_life_src : serve_msg_life = "serveDNSMsgInternal,OnRequest,dispose" := by decide
+/-- UDP and TCP/DoT writers normalise, pack and send inside `WriteMsg` and dispose of nothing themselves. -/
+theorem udp_write_life_src : udp_write_life = "normalize,PackBuffer,WriteToSession" := by decide
+theorem tcp_write_life_src : tcp_write_life = "normalizeTCP,addTCPKeepAlive,packWithPrefix,Write" := by decide
+/-- DoH: the recorded response is read by `writeResponse` and only then disposed of (`Agd.Serve.lifeOf`). -/
+theorem doh_life_src : doh_life = "serveDNS,Msg,writeResponse,Dispose" := by decide
+theorem doh_write_life_src : doh_write_life = "normalizeTCP,Pack,dnsMsgToJSON,Write" := by decide
+/-- DoQ: normalise, pack, write to the stream, then dispose. -/
+theorem quic_life_src : quic_life = "serveDNSMsg,Msg,normalizeTCP,packWithPrefix,Write,Dispose" := by decide
+/-- DNSCrypt: normalise and hand to the library; never disposed of. -/
+theorem dnscrypt_life_src : dnscrypt_life = "serveDNSMsg,WriteMsg,Msg,normalize,WriteMsg" := by decide
 
 end Agd.Tie.C01
